@@ -113,12 +113,18 @@ Legality(st, ns, n, kind) ==
 \* ECMA-119 6.8.2.1: at most eight levels, unless Rock Ridge or the 1999 descriptor lift it
 TooDeep(st, ns, p) == ns = "iso" /\ st.cfg.rr = "" /\ st.cfg.level < 4 /\ Len(p) > 7
 
+\* Rock Ridge lifts the limit by relocating the ninth level (RRIP 4.1.5.1-3): the ISO9660 tree then
+\* differs from the logical one.  Relocation has its own model (Susp.tla, C08); here an entry
+\* that deep is outside the abstract image.
+Relocated(st, ns, p) == ns = "iso" /\ st.cfg.rr # "" /\ Len(p) > 7
+
 AddWhy(st, ns, p, kind) ==
     IF ~HasNs(st, ns) THEN ns \o "_no_such_namespace"
     ELSE IF p = Root THEN ns \o "_root"
     ELSE IF ~IsDir(Tree(st, ns), Parent(p)) THEN ns \o "_missing_parent"
     ELSE IF Legality(st, ns, p[Len(p)], kind) = "illegal" THEN ns \o "_illegal_name"
     ELSE IF TooDeep(st, ns, p) THEN ns \o "_too_deep"
+    ELSE IF Relocated(st, ns, p) THEN "!relocation"
     ELSE IF p \in DOMAIN Tree(st, ns) THEN ns \o "_duplicate"
     ELSE IF Legality(st, ns, p[Len(p)], kind) = "silent" THEN "~" \o ns \o "_silent_name"
     ELSE ""
@@ -132,6 +138,7 @@ FirstWhy(ws) ==
 
 Decide(why, acc) ==
     IF why = "" THEN Ok(acc)
+    ELSE IF why = "!relocation" THEN [out |-> "unsupported", why |-> "relocation", acc |-> acc, alt |-> acc]
     ELSE IF Soft(why) THEN Either(acc, why)
     ELSE Refuse(why)
 
@@ -286,7 +293,15 @@ ModifyInPlaceF(st, p, b) ==
 MaxSections == 31
 \* media: "noemul" | "floppy" | "hdemul" | anything else is not a media type; for "floppy" the boot
 \* file must be a floppy image (1.2, 1.44 or 2.88 MB), which no content of the model is
-BadBootParam(media) == media # "noemul"
+\* El Torito 2.x media types: no emulation; a diskette image of exactly 1.2, 1.44 or 2.88 MB; a
+\* hard disk image (its first sector must be an MBR with one partition: what the content says is
+\* outside the abstract image)
+FloppySizes == {1228800, 1474560, 2949120}
+BootParam(media, len) ==
+    CASE media = "noemul" -> "ok"
+      [] media = "floppy" -> IF len \in FloppySizes THEN "ok" ELSE "bad"
+      [] media = "hdemul" -> "unsupported"
+      [] OTHER -> "bad"
 AddEltoritoF(st, bp, c, media) ==
     IF st.phase # "live" THEN Refuse("bad_state")
     ELSE IF bp = Root \/ bp \notin DOMAIN st.iso THEN Refuse("iso_missing")
@@ -296,7 +311,11 @@ AddEltoritoF(st, bp, c, media) ==
     \* an empty boot file owns no sector a catalog entry could point at: outside the model
     ELSE IF st.blob[st.iso[bp].ino] \in DOMAIN BlobLen /\ BlobLen[st.blob[st.iso[bp].ino]] = 0
          THEN [out |-> "unsupported", why |-> "empty_boot_file", acc |-> st, alt |-> st]
-    ELSE IF BadBootParam(media) THEN Refuse("bad_boot_param")
+    ELSE IF st.blob[st.iso[bp].ino] \notin DOMAIN BlobLen
+         THEN [out |-> "unsupported", why |-> "unknown_boot_content", acc |-> st, alt |-> st]
+    ELSE IF BootParam(media, BlobLen[st.blob[st.iso[bp].ino]]) = "unsupported"
+         THEN [out |-> "unsupported", why |-> "hard_disk_emulation", acc |-> st, alt |-> st]
+    ELSE IF BootParam(media, BlobLen[st.blob[st.iso[bp].ino]]) = "bad" THEN Refuse("bad_boot_param")
     ELSE IF st.elt.on
          THEN IF Len(st.elt.entries) > MaxSections THEN Refuse("too_many_sections")
               ELSE Ok([st EXCEPT !.elt.entries = Append(@, st.iso[bp].ino)])
@@ -324,7 +343,8 @@ DuplicatePvdF(st) ==
     IF st.phase # "live" THEN Refuse("bad_state") ELSE Ok([st EXCEPT !.npvd = @ + 1])
 
 \* schedule steps: calls that may recompute metadata but must not change the abstract image
-ScheduleActs == {"ForceConsistency", "Query", "Walk", "Write"}
+\* ("Outside": calls that change bytes the abstract image does not describe - isohybrid)
+ScheduleActs == {"ForceConsistency", "Query", "Walk", "Write", "Outside"}
 ScheduleF(st, a) ==
     IF st.phase # "live" THEN Refuse("bad_state")
     ELSE IF a.a \in {"Query", "Walk"} /\ ~HasNs(st, a.ns) THEN Refuse(a.ns \o "_no_such_namespace")
